@@ -187,7 +187,10 @@ def run_case(case, ctx):
             if L > 0.7 * G.diameter(pp) and (lev is None or lev > 0.8):
                 kw.update(axisp1_idx=h[0], axisp2_idx=h[1], opoint_idx=h[2])
                 st.count("replacements_with_hints")
-    obs = replcase.observe_replace(S, P, R, case["s"], atol=atol, replace_all=case["replace_all"], **kw)
+    positional = case["s"] % 6 == 2
+    if positional:
+        st.count("replace_calls_with_positional_arguments")
+    obs = replcase.observe_replace(S, P, R, case["s"], _positional=positional, atol=atol, replace_all=case["replace_all"], **kw)
     st.count("replace_calls")
     if f < 1.0 and obs["selected"] is not None and len(obs["selected"]) >= 2:
         st.count("partial_replacements_with_two_or_more_matches")
@@ -304,6 +307,8 @@ def requirements(stats, tier):
                     (stats.get("second_replacements_judged"), sorted(stats.sets.get("history", []))))
     if stats.get("replacements_whose_patterns_carry_their_own_cell") < (50 if tier == "quick" else 8000):
         need.append("replacements whose patterns carry a cell of their own: %d" % stats.get("replacements_whose_patterns_carry_their_own_cell"))
+    if stats.get("replace_calls_with_positional_arguments") < (50 if tier == "quick" else 8000):
+        need.append("replacements called with every option by position: %d" % stats.get("replace_calls_with_positional_arguments"))
     if stats.get("joint_motion_relations_checked") < (40 if tier == "quick" else 6000):
         need.append("joint-motion relation checked only %d times" % stats.get("joint_motion_relations_checked"))
     return need
